@@ -10,7 +10,9 @@ import (
 
 	"github.com/sdcio/cache/proto/cachepb"
 	"github.com/sdcio/data-server/pkg/cache"
+	"github.com/sdcio/data-server/pkg/datastore/target"
 	"github.com/sdcio/data-server/pkg/datastore/types"
+	dschema "github.com/sdcio/data-server/pkg/schema"
 	"github.com/sdcio/data-server/pkg/tree"
 	sdcpb "github.com/sdcio/sdc-protos/sdcpb"
 	"google.golang.org/protobuf/proto"
@@ -58,6 +60,10 @@ type hist struct {
 	env    *fixture.Env
 	pool   []LeafDef
 	owners []string
+	// mkTarget, if set, supplies the southbound target instead of the recording device
+	mkTarget func() target.Target
+	// schemaDec / cacheDec, if set, decorate the collaborators of the next datastore
+	schemaDec func(dschema.Client) dschema.Client
 }
 
 type histRun struct {
@@ -90,7 +96,14 @@ func apiCall(res *core.CaseResult, what string, f func()) (panicked bool) {
 
 func (h *hist) start(rng *core.Rng, res *core.CaseResult, withRunning bool, views bool) *histRun {
 	fc := fixture.NewFaultCache(h.env.Cache)
-	ds := h.env.NewDS(fixture.DSOpts{Cache: fc, Views: views})
+	opts := fixture.DSOpts{Cache: fc, Views: views}
+	if h.mkTarget != nil {
+		opts.Target = h.mkTarget()
+	}
+	if h.schemaDec != nil {
+		opts.Schema = h.schemaDec(h.env.Schema)
+	}
+	ds := h.env.NewDS(opts)
 	r := &histRun{h: h, rng: rng, ds: ds, fc: fc, m: model.NewIntents(), initRun: map[string]string{}, usedPrio: map[int32]string{}, res: res, ctx: context.Background()}
 	if withRunning {
 		r.seedRunning()
